@@ -47,6 +47,11 @@ Hosts == <<
     D("172.15.1.1",    "ip4",  <<172, 15, 1, 1>>, "literal"),
     D("192.168.0.1",   "ip4",  <<192, 168, 0, 1>>, "literal"),
     D("193.168.0.1",   "ip4",  <<193, 168, 0, 1>>, "literal"),
+    D("172.16.0.1",    "ip4",  <<172, 16, 0, 1>>, "literal"),              \* first / last addresses of the private blocks
+    D("172.31.255.254","ip4",  <<172, 31, 255, 254>>, "literal"),
+    D("10.255.255.255","ip4",  <<10, 255, 255, 255>>, "literal"),
+    D("192.168.255.255","ip4", <<192, 168, 255, 255>>, "literal"),
+    D("172.32.0.1",    "ip4",  <<172, 32, 0, 1>>, "literal"),
     D("127.1",         "name", <<127, 0, 0, 1>>, "ok"),                  \* inet_aton spelling: InetAddress reads it as 127.0.0.1
     D6("::1",                <<0, 0, 0, 0, 0, 0, 0, 1>>),
     D6("fe80::1",            <<65152, 0, 0, 0, 0, 0, 0, 1>>),
@@ -101,12 +106,18 @@ Configs(tier) == CASE tier = "thorough" -> Lists2 \X Lists2
 
 Input(d, a, b, hd) ==
     [allow |-> a, block |-> b, host |-> d.h, hlow |-> d.hlow, hcanon |-> d.hcanon, kind |-> d.kind, ip |-> d.ip, ip6 |-> d.ip6,
-     rsv |-> d.rsv, header |-> hd, res |-> "", impl |-> Impl, stage |-> ""]
+     rsv |-> d.rsv, header |-> hd, res |-> "", impl |-> Impl, stage |-> "", envform |-> "normal"]
+\* LUNAR_ALLOW_LIST set to the empty string
+InputEmptyAllow(d, b, hd) == [Input(d, <<>>, b, hd) EXCEPT !.envform = "allow-empty"]
 
 \* (1) every possible result of the transcription is permitted
 Refines ==
     \A ab \in Configs(Tier), i \in DOMAIN Hosts, k \in DOMAIN Headers :
         LET c == Input(Hosts[i], ab[1], ab[2], Headers[k]) IN \A r \in Results(c) : PermittedV(WithRes(c, r), Devs)
+
+RefinesEmptyAllow ==
+    \A b \in Lists1, i \in DOMAIN Hosts, k \in DOMAIN Headers :
+        LET c == InputEmptyAllow(Hosts[i], b, Headers[k]) IN \A r \in Results(c) : PermittedV(WithRes(c, r), Devs)
 
 NCases == Cardinality(Configs(Tier)) * Len(Hosts) * Len(Headers)
 
@@ -119,6 +130,7 @@ Count(P(_)) == LET CS == SetToSeq(Configs(Tier))
                IN  N[Len(CS)]
 
 ASSUME Refines
+ASSUME RefinesEmptyAllow
 ASSUME PrintT(<<"FILTER-CASES", NCases, Count(MustNotRoute), Count(MustRoute)>>)
 
 \* (2) the input space, for replay
